@@ -73,8 +73,10 @@ pub fn replay(prop: &str, part: &str, case: &serde_json::Value) -> Option<CaseRe
         ("C09", "detection") => c09::eval_detect(&sc()?),
         ("C09", _) => c09::eval_false_alarm(&sc()?),
         ("C10", "gossip_equal_amounts") | ("C10", "isolated_observer") => c10::eval_gossip(&sc()?),
+        ("C10", "stale_status") => c10::eval_stale(&sc()?),
         ("C10", _) => c10::eval(&sc()?),
         ("C11", _) => c11::eval(&sc()?),
+        ("C12", "restart_during_handshake") => c12::eval_restart(&sc()?),
         ("C12", _) => c12::eval(&sc()?),
         _ => return None,
     })
